@@ -237,9 +237,6 @@ theorem step_eval_sim (ho : StrictOrder lt) (w1 w2 : W) (q : Path) (n : String) 
   rw [a3, inpOf_step ho hw h1.ci r1, hs.inp]
   rfl
 
-theorem stepCovered_sim {w1 w2 : W} (hs : Sim w1 w2) (op : Op) : stepCovered P w2 op = stepCovered P w1 op := by
-  cases op <;> simp [stepCovered, hs.sm, hs.tabs]
-
 /-- **the live run and the run without the evaluations** end with the same structure, identities and
 inputs; both satisfy the invariant -/
 theorem run_sim (ho : StrictOrder lt) : ∀ (ops : List Op) (w1 w2 : W), WF (w1.env P) lt →
@@ -251,8 +248,8 @@ theorem run_sim (ho : StrictOrder lt) : ∀ (ops : List Op) (w1 w2 : W), WF (w1.
   | nil => intro w1 w2 hw h1 h2 _ _ hs _; exact ⟨hs, h1, h2, hw⟩
   | cons op rest ih =>
     intro w1 w2 hw h1 h2 r1 r2 hs hadm
-    obtain ⟨a1, a2, a3⟩ := hadm
-    have c1 := step_ciw ho w1 op hw h1 (stepCovers_of_admissible w1 op h1.inv a1)
+    obtain ⟨a2, a3⟩ := hadm
+    have c1 := step_ciw ho w1 op hw h1 (stepCovers_of_inv P w1 op h1.inv)
     have g1 := step_rg w1 op hw h1 r1
     by_cases hev : isEval op = true
     · have : noEvals (op :: rest) = noEvals rest := by simp [noEvals, List.filter, hev]
@@ -264,8 +261,7 @@ theorem run_sim (ho : StrictOrder lt) : ∀ (ops : List Op) (w1 w2 : W), WF (w1.
       have : noEvals (op :: rest) = op :: noEvals rest := by simp [noEvals, List.filter, hev']
       rw [this]
       have hw2 : WF (w2.env P) lt := by rw [hs.env_eq P]; exact hw
-      have a1' : Proved op = true ∨ stepCovered P w2 op = true := by rw [stepCovered_sim hs]; exact a1
-      have c2 := step_ciw ho w2 op hw2 h2 (stepCovers_of_admissible w2 op h2.inv a1')
+      have c2 := step_ciw ho w2 op hw2 h2 (stepCovers_of_inv P w2 op h2.inv)
       have g2 := step_rg w2 op hw2 h2 r2
       exact ih _ _ a2 c1 c2 g1 g2 (step_sim ho w1 w2 op hw h1 h2 r1 r2 hs) a3
 
